@@ -13,6 +13,18 @@ CHECKS = [
              "~6M thorough.",
      "note": "Trusted: CPython float = IEEE binary64, fractions.Fraction, Hypothesis generators. Inputs restricted to "
              "normalised times and non-negative displacements (what callers produce)."},
+    {"id": "C15", "engine": "hypothesis-runner", "design_ref": "DESIGN.md §3 C15",
+     "technique": "property-based testing (Hypothesis) against exact rational modular arithmetic; differential cubic vs cuboid",
+     "text": "Generated box lengths, dimensions and entries k*L+f (tiny negatives, exact multiples, values next to L and L/2) "
+             "are checked against Fraction arithmetic: result strictly in [0,L), congruent within one ulp(L), idempotent; "
+             "separations congruent to the difference with |s|<=L/2; cubic and cuboid bit-identical; next_image adds exactly L.",
+     "note": "Trusted: Fraction, IEEE doubles. Box lengths in [1e-3,1e3], |k|<=1000; separation_vector fed positions in [0,L)."},
+    {"id": "C16", "engine": "hypothesis-runner", "design_ref": "DESIGN.md §3 C16",
+     "technique": "property-based testing (Hypothesis) against integer index arithmetic and float adjacency (nextafter); exhaustive cell pairs on small grids",
+     "text": "Generated grids (1-3 dims, cubic/cuboid, 1..12/49/64 cells per side, 0-2 layers, periodic and plain) with positions on "
+             "and next to every face: the returned cell's extent contains the position, extents abut and cover [0,L), and "
+             "neighbour/nearby/relative/translate equal index arithmetic mod n for all pairs (exhaustive <=150 cells).",
+     "note": "Trusted: the index-arithmetic model in vlib/props/C16.py. Grids limited to 2500 cells per case."},
 ]
 
 _ALL = ["C%02d" % i for i in range(1, 21)]
